@@ -1429,6 +1429,38 @@ handle_harness_one! { fam = true;
         core::mem::forget(srv);
     }
 }
+handle_harness_one! { fam = true;
+    // the whole Server::handle on the same slice with the access policy fixed to "passes": the key that
+    // reaches the serializer is the cookie's server-to-client key (handle hands
+    // HandleInnerData.cipher on unchanged), the NTS time builder ran exactly once with that cookie,
+    // and what is sent is registered as an NTS time answer
+    fn c19_tb_slice_handle_serializes_with_s2c_key() {
+        let (mut srv, cfg) = any_server(0);
+        let ip = any_ip();
+        arm_ghosts(&srv, ip, true);
+        IN_DENY.store(false, Relaxed);
+        IN_ALLOW.store(true, Relaxed);
+        CACHE_RES.store(true, Relaxed);
+        MODE.store(3, Relaxed);
+        let msg = [0x23u8; MSG_MAX];
+        let mut buf = [0u8; MSG_MAX];
+        let mut stats = RecStats;
+        let action = srv.handle(ip, NtpTimestamp::from_bits(kani::any()), &msg[..], &mut buf[..], &mut stats);
+        let responded = matches!(action, ServerAction::Respond { .. });
+        core::mem::forget(action);
+        if version_accepted(&cfg) {
+            assert!(BUILT.load(Relaxed) == B_NTS_TIME && BUILD_CALLS.load(Relaxed) == 1 && BUILD_COOKIE_TAG.load(Relaxed) == S2C_TAG);
+            assert!(SER_CALLS.load(Relaxed) == 1 && SER_CIPHER_TAG.load(Relaxed) == S2C_TAG, "serialized under the cookie's server-to-client key");
+            if responded {
+                assert!(REG_RESPONSE.load(Relaxed) == S_TIME && REG_NTS.load(Relaxed));
+            }
+        } else {
+            assert!(!responded && BUILT.load(Relaxed) == B_NONE && SER_CALLS.load(Relaxed) == 0);
+        }
+        kani::cover!(responded, "authenticated time answer sent");
+        core::mem::forget(srv);
+    }
+}
 handle_harness_one! { fam = false;
     fn c19_canary_slice_decrypt_failure_never_answered() {
         let (mut srv, _cfg) = any_server(0);
